@@ -342,7 +342,25 @@ C02IcuChecks(e) ==
          ELSE Chk("C02.icu.month-start", << r[1], r[2], r[3], << r[4], r[5], r[6] >>, << r[7], r[8], r[9] >> >>, nearMoon(r[10])))
 C02Icu == IsEv("C02Icu") /\ Consume(C02IcuChecks(Trace[l]))
 
+\* C06Pair: the structural clauses for every lunar year (compact frame: table + successor's table)
+C06PairChecks(e) ==
+  LET y == e.y
+      T == T4(e.t)
+      TN == T4(e.tn)
+      Y == InYear(T, y)
+  IN IF e.p # 0 THEN Chk("C06.year.panic", y, FALSE)
+     ELSE Chk("C06.table.shape", y, Len(T) = 15 /\ Len(TN) = 15)
+          + (IF Exempt(y) THEN 0 ELSE
+               Chk("C06.months.contiguous", y, Contiguous(T))
+               + Chk("C06.months.length29or30", y, Lengths2930(T))
+               + Chk("C06.year.numbering", << y, [i \in 1..Len(Y) |-> MM(Y[i])] >>, Len(Y) >= 1 /\ Numbering(Y))
+               + Chk("C06.year.length", << y, YearLength(Y) >>, LengthOK(Y))
+               + Chk("C06.year.leapMonth", << y, e.leap >>, e.leap = LeapOf(Y))
+               + Chk("C06.year.dayCount", << y, e.days >>, e.days = YearLength(Y)))
+          + (IF Exempt(y) \/ Exempt(y + 1) THEN 0 ELSE Chk("C06.neighbours.agree", << y, y + 1 >>, Agree(T, TN)))
+C06Pair == IsEv("C06Pair") /\ Consume(C06PairChecks(Trace[l]))
+
 TraceInit == KitInit
-TraceNext == C06Year \/ LunarEdge \/ C01Year \/ C03Year \/ C05Year \/ C02Year \/ C02Icu
+TraceNext == C06Year \/ LunarEdge \/ C01Year \/ C03Year \/ C05Year \/ C02Year \/ C02Icu \/ C06Pair
 TraceSpec == TraceInit /\ [][TraceNext]_tvars
 =============================================================================
